@@ -5187,6 +5187,20 @@ class TLSConnection(TLSRecordLayer):
                 raise TLSFaultError(str(alert))
             else:
                 pass
+        except TLSIllegalParameterException as exc:
+            # protocol errors raised directly by the handshake code (not under
+            # _getMsg): tell the peer before closing
+            for result in self._sendError(AlertDescription.illegal_parameter,
+                                          str(exc)):
+                yield result
+        except TLSDecodeError as exc:
+            for result in self._sendError(AlertDescription.decode_error,
+                                          str(exc)):
+                yield result
+        except TLSDecryptionFailed as exc:
+            for result in self._sendError(AlertDescription.decrypt_error,
+                                          str(exc)):
+                yield result
         except:
             self._shutdown(False)
             raise
